@@ -597,6 +597,8 @@ class Stmts:
             for nm, ex in spec.body_twins:
                 self.oblige_spec(nm, ex, "loop-body", st, fr, twin=True)
             raise PathEnd("loop iteration checked")
+        if getattr(spec, "skip_exit", False):
+            raise PathEnd("the exit path of this loop is covered by a sibling unit")
         self.path.assume(i == n_term)
         self.ex_block(st.orelse, fr)
 
@@ -696,6 +698,9 @@ class Stmts:
         c = self.truthy(self.ev(st.test, fr))
         if arbitrary:
             self.path.assume(c)
+            for ex in spec.elem_facts:
+                # case split of the iteration (the units of a split are exhaustive together)
+                self.assume_spec(ex, fr)
             try:
                 try:
                     self.ex_block(st.body, fr)
@@ -708,5 +713,7 @@ class Stmts:
             for nm, ex in spec.body_ensures:
                 self.oblige_spec(nm, ex, "loop-body", st, fr)
             raise PathEnd("loop iteration checked")
+        if getattr(spec, "skip_exit", False):
+            raise PathEnd("the exit path of this loop is covered by a sibling unit")
         self.path.assume(z3.Not(c))
         self.ex_block(st.orelse, fr)
